@@ -327,7 +327,12 @@ def frame_dd(f):
                 if u['kind'] == 'wrapper':
                     us.service = 0x52; us.status = 0; us.priority = u['priority']; us.timeout_ticks = u['ticks']
                     us.path = path_dd(u['path'])
-                    us.route_path = path_dd(u['route'])
+                    # an empty route path is `00 00` on the wire however the caller spells it: {'segment': []}, an empty list, or no key at all
+                    how = 0 if u['route'] else (u['ticks'] // 100 + u['priority']) % 3
+                    if how == 0:
+                        us.route_path = path_dd(u['route'])
+                    elif how == 1:
+                        us.route_path = []
                 us.request = cip_dd(u['msg'])
                 us.request.input = bytearray(logix.Logix.produce(us.request))
                 i.unconnected_send = us
